@@ -73,6 +73,27 @@ package model
 //@   loop 0 invariant elems: forall j int :: 0 <= j && j < $k && kept($s[j]) ==> usecases[Fcnt(j)] == $s[j]
 //@   loop 0 invariant gone: forall m int :: 0 <= m && m < len(usecases) ==> !named(usecases[m], useCaseName)
 
+// availability (C20): the first support entry with that name, in the first information element for that address and
+// actor, gets the given availability; every other entry of every element keeps name, version, scenarios and availability
+//@ func (*NodeManagementUseCaseDataType).SetAvailability
+//@   requires n != nil && len(useCaseName) > 0
+//@   let I0 = n.UseCaseInformation
+//@   define E(x) = ucMatch(x, address, actor, useCaseName)
+//@   define anyElem = exists i int :: 0 <= i && i < len(I0) && E(I0[i])
+//@   spec first() int
+//@   axiom old(anyElem) ==> 0 <= first() && first() < len(I0) && E(I0[first()]) && forall j int :: 0 <= j && j < first() ==> !E(I0[j])
+//@   spec fs() int
+//@   axiom old(anyElem) ==> 0 <= fs() && fs() < len(I0[first()].UseCaseSupport) && named(I0[first()].UseCaseSupport[fs()], useCaseName) && forall j int :: 0 <= j && j < fs() ==> !named(I0[first()].UseCaseSupport[j], useCaseName)
+//@   define DISJ = forall a int, b int :: 0 <= a && a < len(I0) && 0 <= b && b < len(I0) && a != b ==> arr(I0[a].UseCaseSupport) != arr(I0[b].UseCaseSupport)
+//@   ensures[C20] set: old(anyElem) ==> n.UseCaseInformation[first()].UseCaseSupport[fs()].UseCaseAvailable != nil && *n.UseCaseInformation[first()].UseCaseSupport[fs()].UseCaseAvailable == availability
+//@   ensures[C20] list-kept: n.UseCaseInformation == I0 && forall j int :: 0 <= j && j < len(I0) ==> len(n.UseCaseInformation[j].UseCaseSupport) == old(len(I0[j].UseCaseSupport)) && n.UseCaseInformation[j].Address == old(I0[j].Address) && n.UseCaseInformation[j].Actor == old(I0[j].Actor)
+//@   ensures[C20] others-kept: old(DISJ) ==> forall j int, q int :: 0 <= j && j < len(I0) && 0 <= q && q < len(I0[j].UseCaseSupport) && !(old(anyElem) && j == first() && q == fs()) ==> n.UseCaseInformation[j].UseCaseSupport[q] == old(I0[j].UseCaseSupport[q])
+//@   ensures[C20] name-kept: old(anyElem) ==> n.UseCaseInformation[first()].UseCaseSupport[fs()].UseCaseName == old(I0[first()].UseCaseSupport[fs()].UseCaseName) && n.UseCaseInformation[first()].UseCaseSupport[fs()].UseCaseVersion == old(I0[first()].UseCaseSupport[fs()].UseCaseVersion) && n.UseCaseInformation[first()].UseCaseSupport[fs()].ScenarioSupport == old(I0[first()].UseCaseSupport[fs()].ScenarioSupport)
+//@   ensures[C20] locks: locksUnchanged() && onlyAcquires(nmMux)
+//@   modifies cells(UseCaseSupportType), held, wm, new(bool)
+//@   loop 0 invariant none-yet: forall j int :: 0 <= j && j < $k ==> !named($s[j], useCaseName)
+//@   loop 0 invariant untouched: unchangedPre(UseCaseSupportType) && n.UseCaseInformation == I0
+
 //@ func (*NodeManagementUseCaseDataType).useCaseInformationIndex
 //@   requires n != nil
 //@   ensures[C20] found: result1 ==> 0 <= result0 && result0 < len(n.UseCaseInformation) && ucMatch(n.UseCaseInformation[result0], address, actor, useCaseName) && forall j int :: 0 <= j && j < result0 ==> !ucMatch(n.UseCaseInformation[j], address, actor, useCaseName)
